@@ -281,7 +281,7 @@ Proof.
   - destruct (contents_child r p o Hwf Hop) as [_ [_ Hpar]].
     exists p. repeat split; [exact Hpar| |exact Hop].
     apply (written_iff tbl r Hwf Hw). repeat split.
-    + exact (wf_member_parent r Hwf o p Ho Hpar).
+    + exact (wf_parent_own r Hwf o p Hpar).
     + exact (visible_parent r o p Hwf Hv Hpar).
     + exists root. auto.
 Qed.
@@ -354,3 +354,254 @@ Proof.
 Qed.
 
 End Live.
+
+(* ================================================================== the listing skeleton *)
+Lemma table_ok_facts : forall t, table_ok t = true ->
+  l_visible (t_children t) = true /\ l_visible (t_methods t) = true /\ l_visible (t_pkg_children t) = true /\
+  l_visible (t_pkg_init t) = true /\ l_visible (t_pkg_methods t) = true /\ l_visible (t_table_rows t) = true /\
+  l_visible (t_unmasked t) = true /\ l_visible (t_sidebar_inherited t) = true /\ l_visible (t_sidebar_direct t) = true /\
+  l_visible (t_modsummary_sub t) = true /\ l_visible (t_rootclasses t) = true /\ l_visible (t_subclasses_from t) = true /\
+  l_visible (t_nameindex t) = true /\ l_visible (t_undocced t) = true /\ l_visible (t_alldocs t) = true /\
+  l_visible (t_corpus t) = true /\ l_visible (t_inventory t) = true /\ l_visible (t_writer t) = true /\
+  l_visible (t_assemble t) = true /\ l_visible (t_overriding t) = true.
+Proof.
+  intros t H. unfold table_ok in H. apply andb_prop in H. destruct H as [H _].
+  unfold listings_of in H. cbn [forallb] in H. unfold producer_ok in H. cbn [fst snd] in H.
+  repeat (apply andb_prop in H; let H1 := fresh "H" in destruct H as [H1 H]; apply andb_prop in H1; destruct H1 as [H1 _]).
+  repeat split; assumption.
+Qed.
+
+Lemma markers_ok_facts : forall t, markers_ok t = true ->
+  t_css_private t = true /\ t_sidebar_private t = true /\ t_modsummary_private t = true /\
+  t_search_privacy t = true /\ t_row_uses_css t = true /\ t_child_uses_css t = true.
+Proof.
+  intros t H. unfold markers_ok in H. repeat (apply andb_prop in H; destruct H as [H ?]). repeat split; assumption.
+Qed.
+
+Lemma private_is_private : forall r o, priv_of r o = PRIVATE -> is_private r o = true /\ is_private_class (priv_of r o) = true.
+Proof. intros r o H. unfold is_private. rewrite H. auto. Qed.
+
+(* what every entry of the site satisfies *)
+Definition entry_inv (quote : text -> text) (tbl : table) (r : registry) (e : entry) : Prop :=
+  (wf r -> table_ok tbl = true -> (root_prod (e_prod e) = true -> roots_guard tbl r) ->
+     listing_prod (e_prod e) = true -> visible r (e_obj e) = true) /\
+  (wf r -> table_ok tbl = true ->
+     e_ctx e = e_page e \/ own_page r (e_obj e) = true \/ raw_prod (e_prod e) = true) /\
+  (markers_ok tbl = true -> marked_prod (e_prod e) = true -> priv_of r (e_obj e) = PRIVATE -> e_private e = true).
+
+Ltac leaf := unfold entry_inv; cbn [e_page e_prod e_obj e_ctx e_private mk].
+Ltac nolisting := let H := fresh in intros _ _ _ H; vm_compute in H; discriminate H.
+Ltac nomarked := let H := fresh in intros _ H; vm_compute in H; discriminate H.
+
+Section Entries.
+Variable quote : text -> text.
+Variable tbl : table.
+Variable r : registry.
+
+Lemma inv_plain : forall pg prod o, listing_prod prod = false -> marked_prod prod = false ->
+  entry_inv quote tbl r (mk pg prod pg false o).
+Proof.
+  intros pg prod o Hl Hm. leaf. split; [|split].
+  - intros _ _ _ H. congruence.
+  - intros _ _. now left.
+  - intros _ H. congruence.
+Qed.
+
+Lemma inv_vis : forall pg prod o, marked_prod prod = false -> root_prod prod = false ->
+  (wf r -> table_ok tbl = true -> visible r o = true) -> entry_inv quote tbl r (mk pg prod pg false o).
+Proof.
+  intros pg prod o Hm Hr Hv. leaf. split; [|split].
+  - intros Hwf Ht _ _. now apply Hv.
+  - intros _ _. now left.
+  - intros _ H. congruence.
+Qed.
+
+Lemma inv_row : forall pg prod c, root_prod prod = false ->
+  (table_ok tbl = true -> visible r c = true) ->
+  entry_inv quote tbl r (mk pg prod pg (t_row_uses_css tbl && css_private tbl r c) c).
+Proof.
+  intros pg prod c Hr Hv. leaf. split; [|split].
+  - intros _ Ht _ _. now apply Hv.
+  - intros _ _. now left.
+  - intros Hm _ Hp. destruct (markers_ok_facts tbl Hm) as [H1 [_ [_ [_ [H5 _]]]]].
+    destruct (private_is_private r c Hp) as [_ H]. unfold css_private. now rewrite H1, H5, H.
+Qed.
+
+Lemma obj_content_inv : forall fuel depth level pg s e,
+  In e (obj_content fuel tbl r depth level pg pg s) -> entry_inv quote tbl r e.
+Proof.
+  induction fuel as [|f IH]; intros depth level pg s e Hin; [contradiction|].
+  cbn [obj_content] in Hin. apply in_app_or in Hin.
+  assert (Hitem : forall c, (table_ok tbl = true -> visible r c = true) ->
+            entry_inv quote tbl r (mk pg P_sidebar_item pg (t_sidebar_private tbl && is_private r c) c)).
+  { intros c Hv. leaf. split; [|split].
+    - intros _ Ht _ _. now apply Hv.
+    - intros _ _. now left.
+    - intros Hm _ Hp. destruct (markers_ok_facts tbl Hm) as [_ [H2 _]].
+      destruct (private_is_private r c Hp) as [H _]. now rewrite H2, H. }
+  destruct Hin as [Hin|Hin].
+  - apply in_flat_map in Hin. destruct Hin as [c [Hc Hin]]. apply filter_In in Hc. destruct Hc as [_ Hk].
+    destruct Hin as [E|Hin].
+    + subst e. apply Hitem. intros Ht. destruct (table_ok_facts tbl Ht) as [_ [_ [_ [_ [_ [_ [_ [_ [H9 _]]]]]]]]].
+      exact (keep_visible _ r c H9 Hk).
+    + destruct (own_page r c && Nat.ltb (S level) depth); [|contradiction]. exact (IH _ _ _ _ _ Hin).
+  - destruct (is_class_kind (kind_of r s)); [|contradiction].
+    apply in_map_iff in Hin. destruct Hin as [c [E Hc]]. subst e. apply filter_In in Hc. destruct Hc as [_ Hk].
+    apply andb_prop in Hk. destruct Hk as [_ Hk].
+    apply Hitem. intros Ht. destruct (table_ok_facts tbl Ht) as [_ [_ [_ [_ [_ [_ [_ [H8 _]]]]]]]].
+    exact (keep_visible _ r c H8 Hk).
+Qed.
+
+Lemma methods_visible : forall p c, table_ok tbl = true -> In c (methods_of tbl r p) -> visible r c = true.
+Proof.
+  intros p c Ht Hin. destruct (table_ok_facts tbl Ht) as [_ [H2 [_ [_ [H5 _]]]]].
+  unfold methods_of in Hin. apply filter_In in Hin. destruct Hin as [_ Hk]. apply andb_prop in Hk. destruct Hk as [_ Hk].
+  destruct (kind_of r p); first [exact (keep_visible _ r c H5 Hk) | exact (keep_visible _ r c H2 Hk)].
+Qed.
+
+Lemma page_entries_inv : forall depth ns p e, In p (written tbl r) ->
+  In e (page_entries quote tbl r depth ns p) -> entry_inv quote tbl r e.
+Proof.
+  intros depth ns p e Hp Hin. unfold page_entries in Hin.
+  assert (Hrows : forall l c, In c (rows_of tbl r l) -> table_ok tbl = true -> visible r c = true).
+  { intros l c Hc Ht. destruct (table_ok_facts tbl Ht) as [_ [_ [_ [_ [_ [H6 _]]]]]].
+    unfold rows_of in Hc. apply filter_In in Hc. exact (keep_visible _ r c H6 (proj2 Hc)). }
+  assert (Hpw : wf r -> table_ok tbl = true -> own_page r p = true /\ visible r p = true).
+  { intros Hwf Ht. destruct (table_ok_facts tbl Ht) as [_ [_ [_ [_ [_ [_ [_ [_ [_ [_ [_ [_ [_ [_ [_ [_ [_ [H18 _]]]]]]]]]]]]]]]]]].
+    apply (written_iff tbl r Hwf H18) in Hp. tauto. }
+  repeat (apply in_app_or in Hin; destruct Hin as [Hin|Hin]).
+  - (* heading *) apply in_map_iff in Hin. destruct Hin as [a [E _]]. subst e. now apply inv_plain.
+  - (* sidebar *) destruct ns; [contradiction|]. apply in_app_or in Hin. destruct Hin as [Hin|Hin].
+    + apply in_map_iff in Hin. destruct Hin as [s [E Hs]]. subst e. leaf. split; [|split]; [nolisting| |nomarked].
+      intros Hwf Ht. right. left. destruct Hs as [E|Hs]; [subst s; exact (proj1 (Hpw Hwf Ht))|].
+      destruct (is_module_kind (kind_of r p)).
+      * destruct (parent_of r p) as [q|] eqn:Hq; [|contradiction]. destruct Hs as [E|[]]. subst s.
+        exact (wf_parent_own r Hwf p q Hq).
+      * destruct (module_of r p) as [q|] eqn:Hq; [|contradiction]. destruct Hs as [E|[]]. subst s.
+        exact (wf_module_own r Hwf p q Hq).
+    + apply in_flat_map in Hin. destruct Hin as [s [_ Hin]]. exact (obj_content_inv _ _ _ _ _ _ Hin).
+  - (* main table *) apply in_map_iff in Hin. destruct Hin as [c [E Hc]]. subst e. apply inv_row; [reflexivity|]. eauto.
+  - (* package init table *) apply in_map_iff in Hin. destruct Hin as [c [E Hc]]. subst e. apply inv_row; [reflexivity|]. eauto.
+  - (* base tables *) apply in_flat_map in Hin. destruct Hin as [x [_ Hin]].
+    apply in_map_iff in Hin. destruct Hin as [c [E Hc]]. subst e. apply inv_row; [reflexivity|]. eauto.
+  - (* base names *) apply in_flat_map in Hin. destruct Hin as [x [_ Hin]].
+    apply in_map_iff in Hin. destruct Hin as [c [E Hc]]. subst e. now apply inv_plain.
+  - (* member details *) apply in_map_iff in Hin. destruct Hin as [c [E Hc]]. subst e. leaf. split; [|split].
+    + intros _ Ht _ _. exact (methods_visible p c Ht Hc).
+    + intros _ _. right. right. reflexivity.
+    + intros Hm _ Hpr. destruct (markers_ok_facts tbl Hm) as [H1 [_ [_ [_ [_ H6]]]]].
+      destruct (private_is_private r c Hpr) as [_ H]. unfold css_private. now rewrite H1, H6, H.
+  - (* class extras *) destruct (is_class_kind (kind_of r p)); [|contradiction].
+    repeat (apply in_app_or in Hin; destruct Hin as [Hin|Hin]).
+    + apply in_map_iff in Hin. destruct Hin as [c [E Hc]]. subst e. apply inv_vis; [reflexivity|reflexivity|].
+      intros _ Ht. destruct (table_ok_facts tbl Ht) as [_ [_ [_ [_ [_ [_ [_ [_ [_ [_ [_ [_ [_ [_ [_ [_ [_ [_ [H19 _]]]]]]]]]]]]]]]]]]].
+      apply filter_In in Hc. exact (keep_visible _ r c H19 (proj2 Hc)).
+    + apply in_map_iff in Hin. destruct Hin as [c [E Hc]]. subst e. now apply inv_plain.
+    + apply in_flat_map in Hin. destruct Hin as [m [_ Hin]]. apply in_map_iff in Hin. destruct Hin as [c [E Hc]]. subst e.
+      now apply inv_plain.
+    + apply in_flat_map in Hin. destruct Hin as [m [_ Hin]]. apply in_map_iff in Hin. destruct Hin as [c [E Hc]]. subst e.
+      apply inv_vis; [reflexivity|reflexivity|].
+      intros _ Ht. destruct (table_ok_facts tbl Ht) as [_ [_ [_ [_ [_ [_ [_ [_ [_ [_ [_ [_ [_ [_ [_ [_ [_ [_ [H19 _]]]]]]]]]]]]]]]]]]].
+      apply filter_In in Hc. exact (keep_visible _ r c H19 (proj2 Hc)).
+    + destruct Hin as [E|[]]. subst e. leaf. split; [|split]; [| |nomarked].
+      * intros Hwf Ht _ _. exact (proj2 (Hpw Hwf Ht)).
+      * intros _ _. now left.
+Qed.
+
+Lemma module_summary_inv : forall fuel m e,
+  (wf r -> table_ok tbl = true -> roots_guard tbl r -> visible r m = true) ->
+  In e (module_summary fuel tbl r m) -> entry_inv quote tbl r e.
+Proof.
+  induction fuel as [|f IH]; intros m e Hm Hin; [contradiction|].
+  cbn [module_summary] in Hin. destruct Hin as [E|Hin].
+  - subst e. leaf. split; [|split].
+    + intros Hwf Ht Hg _. apply Hm; auto.
+    + intros _ _. now left.
+    + intros Hmk _ Hp. destruct (markers_ok_facts tbl Hmk) as [_ [_ [H3 _]]].
+      destruct (private_is_private r m Hp) as [H _]. now rewrite H3, H.
+  - destruct (kind_of r m); try contradiction.
+    apply in_flat_map in Hin. destruct Hin as [c [Hc Hin]]. apply (IH c e); [|exact Hin].
+    intros _ Ht _. destruct (table_ok_facts tbl Ht) as [_ [_ [_ [_ [_ [_ [_ [_ [_ [H10 _]]]]]]]]]].
+    apply filter_In in Hc. destruct Hc as [_ Hk]. apply andb_prop in Hk. exact (keep_visible _ r c H10 (proj2 Hk)).
+Qed.
+
+Lemma subclasses_from_visible : forall fuel c x, table_ok tbl = true -> visible r c = true ->
+  In x (subclasses_from fuel tbl r c) -> visible r x = true.
+Proof.
+  induction fuel as [|f IH]; intros c x Ht Hc Hin; [contradiction|].
+  cbn [subclasses_from] in Hin. destruct Hin as [E|Hin]; [now subst x|].
+  apply in_flat_map in Hin. destruct Hin as [s [Hs Hin]]. apply (IH s x Ht); [|exact Hin].
+  destruct (table_ok_facts tbl Ht) as [_ [_ [_ [_ [_ [_ [_ [_ [_ [_ [_ [H12 _]]]]]]]]]]]].
+  apply filter_In in Hs. exact (keep_gen_visible _ r s _ H12 (proj2 Hs)).
+Qed.
+
+Lemma inventory_visible : forall fuel i x, table_ok tbl = true -> In x (inventory_f fuel tbl r i) -> visible r x = true.
+Proof.
+  induction fuel as [|f IH]; intros i x Ht Hin; [contradiction|].
+  cbn [inventory_f] in Hin. destruct (keep (t_inventory tbl) r i) eqn:Hk; [|contradiction].
+  destruct (table_ok_facts tbl Ht) as [_ [_ [_ [_ [_ [_ [_ [_ [_ [_ [_ [_ [_ [_ [_ [_ [H17 _]]]]]]]]]]]]]]]]].
+  destruct Hin as [E|Hin]; [subst x; exact (keep_visible _ r i H17 Hk)|].
+  apply in_flat_map in Hin. destruct Hin as [c [_ Hin]]. exact (IH c x Ht Hin).
+Qed.
+
+Lemma inv_raw : forall pg prod priv o, root_prod prod = false -> raw_prod prod = true ->
+  (table_ok tbl = true -> visible r o = true) ->
+  (markers_ok tbl = true -> marked_prod prod = true -> priv_of r o = PRIVATE -> priv = true) ->
+  entry_inv quote tbl r (mk pg prod [] priv o).
+Proof.
+  intros pg prod priv o Hr Hraw Hv Hm. leaf. split; [|split].
+  - intros _ Ht _ _. now apply Hv.
+  - intros _ _. right. right. exact Hraw.
+  - exact Hm.
+Qed.
+
+Lemma summary_entries_inv : forall e, In e (summary_entries tbl r) -> entry_inv quote tbl r e.
+Proof.
+  intros e Hin. unfold summary_entries in Hin.
+  repeat (apply in_app_or in Hin; destruct Hin as [Hin|Hin]).
+  - (* moduleIndex *) apply in_flat_map in Hin. destruct Hin as [m [Hm Hin]]. apply (module_summary_inv (fuel_of r) m e); [|exact Hin].
+    intros _ _ Hg. apply filter_In in Hm. destruct Hm as [Hroot Hk]. destruct Hg as [[H1 _]|Hall].
+    + exact (keep_visible _ r m H1 Hk).
+    + now apply Hall.
+  - (* classIndex *) apply in_map_iff in Hin. destruct Hin as [c [E Hc]]. subst e. apply inv_vis; [reflexivity|reflexivity|].
+    intros _ Ht. unfold class_index in Hc. apply in_flat_map in Hc. destruct Hc as [root [Hroot Hc]].
+    apply (subclasses_from_visible (fuel_of r) root c Ht); [|exact Hc].
+    destruct (table_ok_facts tbl Ht) as [_ [_ [_ [_ [_ [_ [_ [_ [_ [_ [H11 _]]]]]]]]]]].
+    apply filter_In in Hroot. destruct Hroot as [_ Hk]. unfold is_root_class in Hk.
+    apply andb_prop in Hk. destruct Hk as [Hk _]. apply andb_prop in Hk. exact (keep_visible _ r root H11 (proj2 Hk)).
+  - (* nameIndex *) apply in_map_iff in Hin. destruct Hin as [o [E Ho]]. subst e. leaf. split; [|split]; [| |nomarked].
+    + intros _ Ht _ _. destruct (table_ok_facts tbl Ht) as [_ [_ [_ [_ [_ [_ [_ [_ [_ [_ [_ [_ [H13 _]]]]]]]]]]]]].
+      apply filter_In in Ho. exact (keep_visible _ r o H13 (proj2 Ho)).
+    + intros _ _. now left.
+  - (* undoccedSummary *) apply in_map_iff in Hin. destruct Hin as [o [E Ho]]. subst e. apply inv_vis; [reflexivity|reflexivity|].
+    intros _ Ht. destruct (table_ok_facts tbl Ht) as [_ [_ [_ [_ [_ [_ [_ [_ [_ [_ [_ [_ [_ [H14 _]]]]]]]]]]]]]].
+    apply filter_In in Ho. destruct Ho as [_ Hk]. apply andb_prop in Hk. exact (keep_visible _ r o H14 (proj1 Hk)).
+  - (* index.html roots *) destruct (multi_root r); [|contradiction].
+    apply in_map_iff in Hin. destruct Hin as [o [E Ho]]. subst e. leaf. split; [|split]; [| |nomarked].
+    + intros _ _ Hg _. apply filter_In in Ho. destruct Ho as [Hroot Hk]. destruct (Hg eq_refl) as [[_ H2]|Hall].
+      * exact (keep_visible _ r o H2 Hk).
+      * now apply Hall.
+    + intros _ _. now left.
+  - (* all-documents *) apply in_map_iff in Hin. destruct Hin as [o [E Ho]]. subst e. leaf. split; [|split].
+    + intros _ Ht _ _. destruct (table_ok_facts tbl Ht) as [_ [_ [_ [_ [_ [_ [_ [_ [_ [_ [_ [_ [_ [_ [H15 _]]]]]]]]]]]]]]].
+      apply filter_In in Ho. exact (keep_visible _ r o H15 (proj2 Ho)).
+    + intros _ _. right. right. reflexivity.
+    + intros Hm _ Hp. destruct (markers_ok_facts tbl Hm) as [_ [_ [_ [H4 _]]]].
+      destruct (private_is_private r o Hp) as [_ H]. now rewrite H4, H.
+  - (* search corpus *) apply in_map_iff in Hin. destruct Hin as [o [E Ho]]. subst e.
+    apply inv_raw; [reflexivity|reflexivity| |nomarked].
+    intros Ht. destruct (table_ok_facts tbl Ht) as [_ [_ [_ [_ [_ [_ [_ [_ [_ [_ [_ [_ [_ [_ [_ [H16 _]]]]]]]]]]]]]]]].
+    apply filter_In in Ho. exact (keep_visible _ r o H16 (proj2 Ho)).
+  - (* inventory *) apply in_map_iff in Hin. destruct Hin as [o [E Ho]]. subst e.
+    apply inv_raw; [reflexivity|reflexivity| |nomarked].
+    intros Ht. apply in_flat_map in Ho. destruct Ho as [root [_ Ho]]. exact (inventory_visible _ root o Ht Ho).
+Qed.
+
+Theorem site_entries_inv : forall depth ns e, In e (site_entries quote tbl r depth ns) -> entry_inv quote tbl r e.
+Proof.
+  intros depth ns e Hin. unfold site_entries in Hin. apply in_app_or in Hin. destruct Hin as [Hin|Hin].
+  - apply in_flat_map in Hin. destruct Hin as [p [Hp Hin]]. exact (page_entries_inv depth ns p e Hp Hin).
+  - exact (summary_entries_inv e Hin).
+Qed.
+
+End Entries.
